@@ -23,7 +23,7 @@ Crypt(n) ==
 SetToSeq(S) == CHOOSE q \in [1..Cardinality(S) -> S] : \A i, j \in 1..Cardinality(S) : i # j => q[i] # q[j]
 Rec(n) == LET t == RE(RecTypes) IN
           [op |-> "Rec", t |-> t, present |-> SetToSeq(RE(Presents(t))), wrapper |-> RE({TRUE, TRUE, FALSE}), withState |-> RE(BOOLEAN)]
-Flow(n) == [op |-> "Flow", name |-> RE({"authorize", "token", "rotate"}), withState |-> RE(BOOLEAN)]
+Flow(n) == [op |-> "Flow", name |-> RE({"authorize", "token", "rotate", "dial", "dialtoken"}), withState |-> RE(BOOLEAN)]
 Init == hist = <<>> /\ done = FALSE
 Step == /\ Len(hist) < Depth
         /\ \E c \in {RE({"Crypt", "Crypt", "Crypt", "Rec", "Flow"})} :
